@@ -1,4 +1,4 @@
-SPECIFICATION SpecRaw
+SPECIFICATION SpecRawAx
 CONSTANTS
   SWITCHSETS <- SW_none
   FLIPS = {1}
@@ -6,10 +6,11 @@ CONSTANTS
   SIZES <- SIZES_pos
   PEAKS = {1}
   OMEGAS = {1}
-  INVANG <- NONE
+  INVANG <- AXANG_q
   RAWANG <- RAWANG_q
   QUADS = {1,2,3,4,5,6,7,8,9,10,11,12,13,14,15,16,17,18,19,20}
   SCALES <- SCALES_all
+  AXQUADS = {1,5,12}
 INVARIANT TypeOK
 INVARIANT StackOrtho
 INVARIANT NormLaw
@@ -17,5 +18,6 @@ INVARIANT OmegaLaw
 INVARIANT OriginLaw
 INVARIANT Roundtrip
 INVARIANT EwaldBound
+INVARIANT AxisLaw
 INVARIANT Emit
 CHECK_DEADLOCK FALSE
